@@ -74,6 +74,7 @@ def operandOf (j : Json) : Except String Operand := do
   match ← getStr j "t" with
   | "frac" => pure (.frac (← getFrac j "x"))
   | "num" => pure (.num (← getNum j "v"))
+  | "seq" => pure .seq
   | t => throw s!"bad operand {t}"
 
 def cmpOf (s : String) : Except String CmpOp :=
@@ -129,6 +130,136 @@ def getFS (db : Db) (j : Json) (k : String) : Except String (Except ErrKind FS) 
   let o ← getObj j k
   pure (FS.init db (← getSym o "cat") (← getSym o "unit") (← getFV o "v"))
 
+/-! ### pools, setters, powers -/
+
+def splitTag (s : String) : String × String :=
+  match s.splitOn ":" with
+  | [a, b] => (a, b)
+  | _ => (s, "")
+
+def pyNumOfStr (s : String) : Except String PyNum :=
+  match s with
+  | "inf" => .ok (.inf false)
+  | "-inf" => .ok (.inf true)
+  | "none" => .ok .none
+  | "bad" => .ok .bad
+  | _ =>
+    let (t, v) := splitTag s
+    match t, parseRat? v with
+    | "i", some q => if q.den = 1 then .ok (.int q.num) else .error s!"not an int: {s}"
+    | "f", some q => .ok (.float q)
+    | _, _ => .error s!"bad python number {s}"
+
+def powExpOfStr (s : String) : Except String PowExp :=
+  match s with
+  | "inf" => .ok (.inf false)
+  | "-inf" => .ok (.inf true)
+  | "bad" => .ok .bad
+  | "frac" => .ok .frac
+  | _ =>
+    let (t, v) := splitTag s
+    match t, v.toInt? with
+    | "i", some k => .ok (.int k)
+    | "f", some k => .ok (.float k)
+    | _, _ => .error s!"bad exponent {s}"
+
+def getKey (j : Json) (k : String) : Except String (Option Int) :=
+  match j.getObjVal? k with
+  | .ok .null => .ok none
+  | .ok (.num n) => if n.exponent = 0 then .ok (some n.mantissa) else .error "key is not an integer"
+  | _ => .error s!"missing key field {k}"
+
+def getNat (j : Json) (k : String) : Except String Nat := do
+  let i ← getInt j k
+  if i < 0 then throw s!"field {k} is negative" else pure i.toNat
+
+def numberOpt (j : Json) (k : String) : Except String (Option Rat) := do
+  let n ← getStr j k
+  match n with
+  | "bad" => pure none
+  | _ => match parseRat? n with
+    | some q => pure (some q)
+    | none => throw "bad number"
+
+def mutOf (j : Json) : Except String Mut := do
+  match ← getStr j "t" with
+  | "setnum" => pure (.setNum (← pyNumOfStr (← getStr j "v")))
+  | "setden" => pure (.setDen (← pyNumOfStr (← getStr j "v")))
+  | "setitem" => pure (.setItem (← getKey j "key") (← pyNumOfStr (← getStr j "v")))
+  | "reduce" => pure .reduce
+  | "setnumber" => pure (.setNumber (← numberOpt j "n"))
+  | "setfraction" => pure (.setFraction (← fracArgOf (← getObj j "fr")))
+  | t => throw s!"bad in-place operation {t}"
+
+def unOf (s : String) : Except String UnOp :=
+  match s with
+  | "neg" => .ok .neg | "abs" => .ok .abs | "inv" => .ok .inv | "copy" => .ok .copy
+  | _ => .error s!"bad unary {s}"
+
+def binOf (s : String) : Except String BinOp :=
+  match s with
+  | "add" => .ok .add | "radd" => .ok .radd | "sub" => .ok .sub | "rsub" => .ok .rsub | "mul" => .ok .mul
+  | "rmul" => .ok .rmul | "div" => .ok .div | "rdiv" => .ok .rdiv | "mod" => .ok .mod
+  | _ => .error s!"bad binary {s}"
+
+def argOf (j : Json) : Except String Arg := do
+  match ← getStr j "t" with
+  | "ref" => pure (.ref (← getNat j "k"))
+  | _ => pure (.lit (← operandOf j))
+
+def qargOf (qj : Json) : Except String QArg := do
+  match ← getStr qj "t" with
+  | "qtype" => pure (.qtype (← getSym qj "s"))
+  | "quantity" => pure (.quantity ⟨← getSym qj "cat", ← getSym qj "unit"⟩)
+  | t => throw s!"bad quantity argument {t}"
+
+def cffArgOf (s : String) : Except String CffArg :=
+  match s with
+  | "none" => .ok .none
+  | "bad" => .ok .bad
+  | _ => match parseRat? s with
+    | some q => .ok (.num q)
+    | none => .error "bad decimal"
+
+def ctorOf (j : Json) : Except String Ctor := do
+  match ← getStr j "t" with
+  | "frac_new" => pure (.fracNew (← getNum j "a") (← getNumOpt j "b"))
+  | "frac_un" => pure (.fracUn (← unOf (← getStr j "f")) (← getNat j "k"))
+  | "frac_bin" => pure (.fracBin (← binOf (← getStr j "f")) (← getNat j "k") (← argOf (← getObj j "o")))
+  | "frac_pow" => pure (.fracPow (← getNat j "k") (← powExpOfStr (← getStr j "e")))
+  | "fv_new" => pure (.fvNew (← numberOpt j "number") (← fracArgOf (← getObj j "fr")))
+  | "cff" => pure (.fvFromFloat (← cffArgOf (← getStr j "d")))
+  | "fv_parse" => pure (.fvFromString (← getStr j "text").toList (← getBool j "cl"))
+  | "fv_copy" => pure (.fvCopy (← getNat j "k"))
+  | "fs_new" =>
+    let vj ← getObj j "v"
+    let v ← match ← getStr vj "t" with
+      | "num" => pure (FsVal.num (← getRat vj "q"))
+      | "fv" => pure (FsVal.fv (← fvOf vj))
+      | t => throw s!"bad FractionScalar value {t}"
+    pure (.fsNew (← getSym j "cat") (← getSym j "unit") v)
+  | "fs_get" => pure (.fsGetValue (← getNat j "k") (← getSym j "unit"))
+  | "fv_convert" => pure (.fvConvert (← getNat j "k") (← qargOf (← getObj j "q")) (← getSym j "from") (← getSym j "to"))
+  | t => throw s!"bad constructor {t}"
+
+def poolOpOf (j : Json) : Except String PoolOp := do
+  match ← getStr j "k" with
+  | "new" => pure (.new (← ctorOf (← getObj j "c")))
+  | "upd" => pure (.upd (← getNat j "i") (← mutOf (← getObj j "m")))
+  | t => throw s!"bad statement {t}"
+
+def snapJ : Obj → Json
+  | .frac f => Json.mkObj [("k", "frac"), ("x", ratJ f.x), ("s", strJ f.str)]
+  | .fv v => Json.mkObj [("k", "fv"), ("n", ratJ v.number), ("x", ratJ v.frac.x), ("s", strJ v.str)]
+  | .fs s => Json.mkObj [("k", "fs"), ("n", ratJ s.value.number), ("x", ratJ s.value.frac.x), ("s", strJ s.value.str),
+      ("cat", symJ s.q.cat), ("unit", symJ s.q.unit)]
+
+def traceJ (t : List (Except ErrKind Unit × Pool)) : Json :=
+  Json.arr (t.map (fun (r, p) =>
+    Json.mkObj [("r", match r with
+      | .ok _ => Json.str "ok"
+      | .error e => Json.str e.name), ("pool", Json.arr (p.map snapJ).toArray)])).toArray
+
 def handle (j : Json) : Except String Json := do
   let op ← getStr j "op"
   match op with
@@ -180,18 +311,21 @@ def handle (j : Json) : Except String Json := do
     | .ok _ => pure (outBool (a.cmpNum c (← getRat b "num")))
     | .error _ => pure (outBool (a.cmp c (← fvOf b)))
   | "fv_str" => pure (okJ (strJ (← getFV j "v").str))
-  | "fv_parse" => pure (outFV (parse (← getStr j "text").toList))
+  | "fv_parse" =>
+    let cl := match j.getObjVal? "cl" with
+      | .ok (.bool b) => b
+      | _ => true
+    pure (outFV (parseWith cl (← getStr j "text").toList))
   | "fv_match" =>
     match matchFractionPart (← getStr j "text").toList with
     | .ok _ => pure (okJ Json.null)
     | .error e => pure (errJ e)
   | "fv_strparse" => pure (outFV (parse (← getFV j "v").str))
   | "cff" =>
-    match ← getStr j "d" with
-    | "bad" => pure (errJ .type)
-    | s => match parseRat? s with
-      | some q => pure (outFV (createFromFloat q))
-      | none => throw "bad decimal"
+    match createFromFloatPy (← cffArgOf (← getStr j "d")) with
+    | .error e => pure (errJ e)
+    | .ok none => pure (okJ Json.null)
+    | .ok (some v) => pure (okJ (fvJ v))
   | "fs_convert" =>
     let db ← dbOf (← getStr j "db")
     let cat ← getSym j "cat"
@@ -281,6 +415,24 @@ def handle (j : Json) : Except String Json := do
         | some c => fvMags db c u v fv
         | none => (0, 0)
       pure (Json.mkObj [("ok", fvJ r), ("Mn", ratJ (maxR m.1 m.2)), ("Mf", ratJ 0)])
+  | "hist" =>
+    let db ← dbOf (← getStr j "db")
+    let ops ← (← getArr j "ops").toList.mapM poolOpOf
+    pure (okJ (traceJ (poolTrace db [] ops)))
+  | "frac_pow" => pure (outFrac ((← getFrac j "x").pow (← powExpOfStr (← getStr j "e"))))
+  | "frac_set" => pure (outFrac ((← getFrac j "x").mutate (← mutOf (← getObj j "m"))))
+  | "frac_seq" =>
+    let x ← getFrac j "x"
+    match ← getStr j "f" with
+    | "len" => pure (okJ (Json.num (x.len : Int)))
+    | "iter" => pure (okJ (Json.arr (x.iter.map (fun (i : Int) => Json.str (toString i))).toArray))
+    | "getitem" =>
+      match x.getItem (← getKey j "key") with
+      | .ok i => pure (okJ (Json.str (toString i)))
+      | .error e => pure (errJ e)
+    | f => throw s!"bad sequence operation {f}"
+  | "fv_lstr" => pure (okJ (strJ (← getFV j "v").localizedString))
+  | "fv_lfrac" => pure (okJ (strJ (← getFV j "v").localizedFraction))
   | _ => throw s!"unknown op {op}"
 
 def step (j : Json) : Json :=
